@@ -272,6 +272,10 @@ def run(ctx, deep=False):
                     st[1], r4, len(s4), r5, len(s5)), inst=inst, call=st[1], kind_="accept")
                 continue
             if len(s4) == 1:
+                p4, p5 = s4[0][1], s5[0][1]
+                if (p4.max_retries, p4.max_lifetime) != (p5.max_retries, p5.max_lifetime):
+                    bad("C19:policy:%s" % st[1].split()[3], "equivalent consoles, `%s`: AirTouch 4 sends it with retry policy (retries %s, lifetime %s s), AirTouch 5 with (retries %s, lifetime %s s)" % (
+                        st[1], p4.max_retries, p4.max_lifetime, p5.max_retries, p5.max_lifetime), inst=inst, call=st[1], kind_="policy")
                 try:
                     f4 = c04.frame_of(api4, s4[0][0])
                     f5 = c04.frame_of(api5, s5[0][0])
